@@ -665,7 +665,31 @@ func extractWALFileInfo(baseDir string) (map[string]*walFilesInfo, error) {
 		filesInfo[key].walFiles = append(filesInfo[key].walFiles, fileName)
 	}
 
+	// The log of a block is replayed (and afterwards deleted) in the order in which its files were
+	// written: by file index, not by name ("_10.wal" sorts before "_2.wal").
+	for _, info := range filesInfo {
+		sort.SliceStable(info.walFiles, func(i, j int) bool {
+			idxI, _ := walFileIndex(info.walFiles[i])
+			idxJ, _ := walFileIndex(info.walFiles[j])
+			return idxI < idxJ
+		})
+	}
+
 	return filesInfo, nil
+}
+
+// walFileIndex returns the <walFileIndex> of "shardId_<shard>_segId_<segID>_blockId_<blockNo>_<walFileIndex>.wal"
+// (math.MaxUint64, false if the name has none).
+func walFileIndex(fileName string) (uint64, bool) {
+	parts := strings.Split(strings.TrimSuffix(fileName, ".wal"), "_")
+	if len(parts) < 7 {
+		return math.MaxUint64, false
+	}
+	idx, err := strconv.ParseUint(parts[6], 10, 64)
+	if err != nil {
+		return math.MaxUint64, false
+	}
+	return idx, true
 }
 
 func deleteWalFile(dirPath, fileName string) error {
@@ -706,6 +730,21 @@ func RecoverWALData() {
 	}
 
 	for _, fileData := range walFilesData {
+		if firstIdx, ok := walFileIndex(fileData.walFiles[0]); ok && firstIdx != 0 {
+			// The log of a block starts with file 0, and its files are deleted in ascending order only
+			// after the block is on disk (rotateBlock, or the end of this function in an earlier
+			// start). A log without its first file is what an interrupted deletion left behind: the
+			// block is complete on disk already, and rebuilding it from the rest of the log would
+			// overwrite it with a part of its datapoints.
+			for _, walFileName := range fileData.walFiles {
+				err = deleteWalFile(baseDir, walFileName)
+				if err != nil {
+					log.Warnf("RecoverWALData : Failed to delete wal file %s: %v", walFileName, err)
+				}
+			}
+			continue
+		}
+
 		mBlock := initMetricsBlock(fileData.mId, fileData.segID, fileData.blockNo)
 		isWalFileEmpty := true
 		replayedFiles := make([]string, 0, len(fileData.walFiles))
